@@ -19,3 +19,25 @@ Theorem C10_fault_noticed :
     faulted st = true -> faulted (snd (run p s st)) = true.
 Proof. exact (@faulted_mono). Qed.
 Print Assumptions C10_fault_noticed.
+
+(** For every program over the reader interface, every source that fails from position k on and
+    every starting state that has not yet passed k: once the program has inspected position k it
+    has been told of the failure ... *)
+Theorem C10_fault_noticed_when_inspected :
+  forall (O A : Type) (k : nat) (rs : list rune) (p : prog O A) (st : rstate),
+    (cursor st <= hiwater st)%nat -> ((k < hiwater st)%nat -> faulted st = true) ->
+    (k < hiwater (snd (run p (mkSource rs (Some k)) st)))%nat ->
+    faulted (snd (run p (mkSource rs (Some k)) st)) = true.
+Proof. exact fault_noticed_when_inspected. Qed.
+Print Assumptions C10_fault_noticed_when_inspected.
+
+(** ... and a program that was never told of it has run exactly as on the whole input: same
+    result, same outputs (tokens, errors), same final reader state.  A failure that is not reached
+    changes nothing. *)
+Theorem C10_unnoticed_fault_changes_nothing :
+  forall (O A : Type) (k : nat) (rs : list rune) (p : prog O A) (st : rstate),
+    (cursor st <= hiwater st)%nat -> (hiwater st <= k)%nat ->
+    faulted (snd (run p (mkSource rs (Some k)) st)) = false ->
+    run p (mkSource rs None) st = run p (mkSource rs (Some k)) st.
+Proof. exact unnoticed_fault_changes_nothing. Qed.
+Print Assumptions C10_unnoticed_fault_changes_nothing.
